@@ -174,6 +174,9 @@ def load_known_findings() -> list[dict[str, Any]]:
     return json.loads(p.read_text())
 
 
+PURE_PYTHON_PROTOBUF_SHARDS = {"C12", "C04", "C08"}
+
+
 def worker_env() -> dict[str, str]:
     env = dict(os.environ)
     env["PYTHONPATH"] = f"{REPO}:{VERIF}"
@@ -205,7 +208,13 @@ def run_shards(prop: str, tier: str, seed: int, nshards: int, budget_s: float) -
                 "--seed", str(seed), "--out", str(out), "--watchdog", str(int(budget_s)),
             ]
             log = open(tmp / f"shard{i}.log", "wb")
-            procs.append((i, out, log, subprocess.Popen(cmd, env=worker_env(), cwd=str(VERIF), stdout=log, stderr=subprocess.STDOUT)))
+            env_i = worker_env()
+            if (i + seed) % 4 == 2 and prop in PURE_PYTHON_PROTOBUF_SHARDS:
+                # the protobuf runtime has two back ends that differ in what they raise for the same malformed payload (upb: DecodeError; pure
+                # Python: also UnicodeDecodeError / ValueError): the properties that speak about undecodable payloads run a quarter of their
+                # shards on the pure-Python one
+                env_i["PROTOCOL_BUFFERS_PYTHON_IMPLEMENTATION"] = "python"
+            procs.append((i, out, log, subprocess.Popen(cmd, env=env_i, cwd=str(VERIF), stdout=log, stderr=subprocess.STDOUT)))
         deadline = time.monotonic() + budget_s + 30
         for i, out, log, p in procs:
             try:
